@@ -73,3 +73,15 @@ Record idealised (a : Q) (female hap_ref : bool) (t : list bin) : Prop := {
   id_y : female = false -> forall b, In b t -> b_chrom b = y_label t -> b_log2 b == a;
   id_w : forall b w, In b t -> b_weight b = Some w -> 0 <= w
 }.
+
+(* the same relative to a PAR build: "autosomal", "chrX" and "chrY" are what the code's filters select -- the
+   numerically named chromosomes plus PAR1X / PAR2X at level a, chrX outside them at a + x_offset, a male sample's
+   chrY outside PAR1Y / PAR2Y at a (PAR-Y bins, which carry no reads, are unconstrained) *)
+Record idealised_build (a : Q) (female hap_ref : bool) (build : option parb) (t : list bin) : Prop := {
+  idb_auto_exists : exists b, In b t /\ is_auto_name (b_chrom b) = true;
+  idb_x_exists : exists b, In b t /\ chr_x_filter t build b = true;
+  idb_auto : forall b, In b t -> auto_sel t build b = true -> b_log2 b == a;
+  idb_x : forall b, In b t -> chr_x_filter t build b = true -> b_log2 b == a + x_offset female hap_ref;
+  idb_y : female = false -> forall b, In b t -> chr_y_filter t build b = true -> b_log2 b == a;
+  idb_w : forall b w, In b t -> b_weight b = Some w -> 0 <= w
+}.
